@@ -312,8 +312,9 @@ class X86Model(object):
         m_.modifs = {self.env['mmx']: True}
         lg = Obj('log')
         lg.debug = Native(lambda *a: None)
-        scope = {'self': me, 'm': m_, 'read_prefix': list(prefix), 'mm': afs.mm, 'xmm': afs.xmm, 'u32': afs.u32, 'u16': afs.u16, 'x86_afs': afs, 'log': lg, 'reg_cat': 0,
-                 'mmx_prefixes': self.env.get('mmx_prefixes')}
+        scope = dict((k, v) for k, v in self.env.items() if isinstance(v, (str, int, bool, list, tuple, dict)) or v is None)
+        scope.update({'self': me, 'm': m_, 'read_prefix': list(prefix), 'mm': afs.mm, 'xmm': afs.xmm, 'u32': afs.u32, 'u16': afs.u16, 'x86_afs': afs, 'log': lg, 'reg_cat': 0,
+                 'mmx_prefixes': self.env.get('mmx_prefixes')})
         # local names that _dis derives from the prefix list before the selection (e.g. the filtered mandatory prefixes)
         from .srcmodel import walk_no_nested
         if getattr(self, '_prefix_locals', None) is None:
@@ -334,6 +335,8 @@ class X86Model(object):
         'never' when it reaches a NEVER/raise site."""
         from .consteval import _Return
         chain, digit_chain, _ = self._dis_mmx_nodes()
+        if self.dis_mmx_rejected_early(name, prefix):
+            return 'rejected'
         me, scope = self._mmx_scope(name, prefix)
         scope['swap_args'] = swap
         ev = Evaluator({})
@@ -348,6 +351,31 @@ class X86Model(object):
             raise AnalysisError('_dis MMX/SSE mode selection for %s is outside the evaluable subset: %s' % (name, e))
         return me.opmode, me.admode, scope['swap_args']
 
+    def dis_mmx_rejected_early(self, name, prefix):
+        """Does _dis return None for this MMX/SSE row and prefix list before looking at operands
+        (top-level `if m.modifs[mmx]: ... return None` guards, e.g. the INVALID entries of mmx_suffixes)?"""
+        from .srcmodel import walk_no_nested, parent
+        from .consteval import _Return, Native
+        if getattr(self, '_mmx_early', None) is None:
+            dis = self.arch.method('x86_mn', '_dis')
+            chain, digit_chain, memsize = self._dis_mmx_nodes()
+            inner = set(id(x) for n in (chain, digit_chain, memsize) for x in ast.walk(n))
+            self._mmx_early = [n for n in walk_no_nested(dis) if isinstance(n, ast.If) and u(n.test) == 'm.modifs[mmx]' and id(n) not in inner
+                               and any(isinstance(x, ast.Return) for x in ast.walk(n)) and not any(isinstance(x, ast.Call) and 'get_afs' in u(x.func) for x in ast.walk(n))]
+        if not self._mmx_early:
+            return False
+        me, scope = self._mmx_scope(name, prefix)
+        scope['mmx_set_suffix'] = Native(self.mmx_set_suffix)
+        ev = Evaluator({})
+        ev.env = scope
+        try:
+            ev.exec_stmts(self._mmx_early, scope)
+        except _Return:
+            return True
+        except NotConst as e:
+            raise AnalysisError('_dis: early MMX/SSE rejection guard is outside the evaluable subset: %s' % e)
+        return False
+
     def dis_mmx_memsize(self, name, prefix, size):
         """size of a memory r/m operand after the per-mnemonic adjustment table of _dis ('never' at a NEVER site)"""
         _, _, memsize = self._dis_mmx_nodes()
@@ -356,8 +384,11 @@ class X86Model(object):
         scope['modr'] = modr
         ev = Evaluator({})
         ev.env = scope
+        from .consteval import _Return
         try:
             ev.exec_stmts(memsize.body, scope)
+        except _Return:
+            return 'never'            # _dis returns None: no instruction
         except NotConst as e:
             if 'NEVER' in str(e):
                 return 'never'
